@@ -37,26 +37,34 @@ Module TLS := MayV.Rt.PoisonTls.
 (* (i) poisoning                                                                                            *)
 (* ======================================================================================================== *)
 
-(* The decision table of Flag::done, as the code computes it: the flag is stored iff the guard was NOT made while
-   the thread was panicking, the thread IS panicking now, and NOT (coroutine context and Cancel.state == 1). *)
+(* The decision table of Flag::done, as the code computes it NOW (after fix bce9086, finding F32): the flag is stored iff
+   the guard was NOT made while the thread was panicking, the thread IS panicking now, and NOT (coroutine context and
+   the cancel panic has been raised in this coroutine: Cancel.unwinding, set by trigger_cancel_panic). *)
 Theorem C13_i_decision_table :
-  forall gpan tpan isco cst,
-  P.done_stores gpan tpan isco cst = true <-> gpan = false /\ tpan = true /\ ~ (isco = true /\ cst = 1%Z).
+  forall gpan tpan isco cunw,
+  P.done_stores gpan tpan isco cunw = true <-> gpan = false /\ tpan = true /\ ~ (isco = true /\ cunw = true).
 Proof. exact PT.done_stores_spec. Qed.
 Print Assumptions C13_i_decision_table.
 
+(* ... and before that fix (the variant fixd = false of the model): NOT (coroutine context and Cancel.state == 1). *)
+Theorem C13_i_decision_table_prefix :
+  forall gpan tpan isco cst,
+  P.done_stores_prefix gpan tpan isco cst = true <-> gpan = false /\ tpan = true /\ ~ (isco = true /\ cst = 1%Z).
+Proof. exact PT.done_stores_prefix_spec. Qed.
+Print Assumptions C13_i_decision_table_prefix.
+
 (* Read guards never poison (RwLockReadGuard carries no poison::Guard). *)
 Theorem C13_i_read_guard_never_poisons :
-  forall gpan tpan isco cst, P.drop_poisons P.GR gpan tpan isco cst = false.
+  forall fixd gpan tpan isco cst cunw, P.drop_poisons fixd P.GR gpan tpan isco cst cunw = false.
 Proof. exact PT.read_guard_never_poisons. Qed.
 Print Assumptions C13_i_read_guard_never_poisons.
 
 (* Every way a guard is dropped (explicitly, or by the unwinding of the frames that own it - genuine panic or
    cancellation, nested or not) sets the flag of ITS lock exactly by that decision, and touches no other lock. *)
 Theorem C13_i_guard_drop_is_exactly_the_decision :
-  forall isco ismutex s a t g s', PT.drops s a t g -> P.step isco ismutex s a = Some s' ->
+  forall isco ismutex fixd s a t g s', PT.drops s a t g -> P.step isco ismutex fixd s a = Some s' ->
   P.failed (P.L s' (P.glock g)) =
-    P.failed (P.L s (P.glock g)) || P.drop_poisons (P.gk g) (P.gpan g) (P.panicking (P.T s t)) (isco t) (P.cst (P.T s t)) /\
+    P.failed (P.L s (P.glock g)) || P.drop_poisons fixd (P.gk g) (P.gpan g) (P.panicking (P.T s t)) (isco t) (P.cst (P.T s t)) (P.cunw (P.T s t)) /\
   forall l, l <> P.glock g -> P.L s' l = P.L s l.
 Proof. exact PT.drop_exact. Qed.
 Print Assumptions C13_i_guard_drop_is_exactly_the_decision.
@@ -64,7 +72,7 @@ Print Assumptions C13_i_guard_drop_is_exactly_the_decision.
 (* The lock is RELEASED by every guard drop, whatever the decision: the guard is gone, write access (Mutex / write
    guard) is given back, a read guard takes exactly one reader entry out; nobody else is touched. *)
 Theorem C13_i_guard_drop_always_releases :
-  forall isco ismutex s a t g s', PT.drops s a t g -> P.step isco ismutex s a = Some s' ->
+  forall isco ismutex fixd s a t g s', PT.drops s a t g -> P.step isco ismutex fixd s a = Some s' ->
   (forall g', In g' (P.held (P.T s' t)) -> P.gid g' <> P.gid g) /\
   (P.has_flag (P.gk g) = true -> P.wheld (P.L s' (P.glock g)) = None /\ P.readers (P.L s' (P.glock g)) = P.readers (P.L s (P.glock g))) /\
   (P.gk g = P.GR -> P.wheld (P.L s' (P.glock g)) = P.wheld (P.L s (P.glock g)) /\
@@ -76,7 +84,7 @@ Print Assumptions C13_i_guard_drop_always_releases.
 
 (* ... and what it releases is what the guard held: the dropped guard was the recorded owner / a counted reader. *)
 Theorem C13_i_dropped_guard_was_the_owner :
-  forall isco ismutex s a t g, P.Reach isco ismutex s -> PT.drops s a t g ->
+  forall isco ismutex fixd s a t g, P.Reach isco ismutex fixd s -> PT.drops s a t g ->
   (P.has_flag (P.gk g) = true -> P.wheld (P.L s (P.glock g)) = Some t) /\
   (P.gk g = P.GR -> In t (P.readers (P.L s (P.glock g)))).
 Proof. exact PT.dropped_guard_was_the_owner. Qed.
@@ -85,15 +93,15 @@ Print Assumptions C13_i_dropped_guard_was_the_owner.
 (* An unwinding never gets stuck before the guards of the frames it leaves are dropped: it can drop one of them, or
    - when none is left - it is caught (catch_unwind, or the root of the task: generator / thread). *)
 Theorem C13_i_unwinding_drops_every_guard_of_the_frames_it_leaves :
-  forall isco ismutex s t m ins r, P.Reach isco ismutex s -> P.alive (P.T s t) = true -> P.ctl (P.T s t) = P.CUnw m ins :: r ->
-  (exists g s', In g (P.held (P.T s t)) /\ P.step isco ismutex s (P.UnwDrop t (P.gid g)) = Some s') \/
-  (exists s', P.step isco ismutex s (P.UnwCatch t) = Some s').
+  forall isco ismutex fixd s t m ins r, P.Reach isco ismutex fixd s -> P.alive (P.T s t) = true -> P.ctl (P.T s t) = P.CUnw m ins :: r ->
+  (exists g s', In g (P.held (P.T s t)) /\ P.step isco ismutex fixd s (P.UnwDrop t (P.gid g)) = Some s') \/
+  (exists s', P.step isco ismutex fixd s (P.UnwCatch t) = Some s').
 Proof. exact PT.unwinding_proceeds. Qed.
 Print Assumptions C13_i_unwinding_drops_every_guard_of_the_frames_it_leaves.
 
 (* A task that has ended (returned, panicked, cancelled) owns no guard, owns no lock, is a reader of none. *)
 Theorem C13_i_ended_task_holds_no_lock :
-  forall isco ismutex s t, P.Reach isco ismutex s -> P.fin (P.T s t) <> None ->
+  forall isco ismutex fixd s t, P.Reach isco ismutex fixd s -> P.fin (P.T s t) <> None ->
   P.held (P.T s t) = [] /\ forall l, P.wheld (P.L s l) <> Some t /\ ~ In t (P.readers (P.L s l)).
 Proof. exact PT.ended_task_holds_nothing. Qed.
 Print Assumptions C13_i_ended_task_holds_no_lock.
@@ -101,71 +109,99 @@ Print Assumptions C13_i_ended_task_holds_no_lock.
 (* "The panic started inside the guard": a guard made while its task was not unwinding has been held at the start of
    every unwinding that is now in progress (`ins` = the guards held when the unwinding started). *)
 Theorem C13_i_panic_started_inside_the_guard :
-  forall isco ismutex s t g m ins, P.Reach isco ismutex s ->
+  forall isco ismutex fixd s t g m ins, P.Reach isco ismutex fixd s ->
   In g (P.held (P.T s t)) -> P.gpan g = false -> In (P.CUnw m ins) (P.ctl (P.T s t)) -> In (P.gid g) ins.
 Proof. exact PT.started_inside. Qed.
 Print Assumptions C13_i_panic_started_inside_the_guard.
 
-(* A cancellation unwind never poisons: a guard dropped while the outermost unwinding in progress is a cancellation
-   (and the cancel is not disabled at that moment: the code reads `state == 1`) leaves the flag alone. *)
+(* EXACTLY, for the code as it is now: the drop poisons <-> (Mutex or write guard) and the panic started inside the guard
+   and NOT (coroutine in which the cancel panic has been raised).  No premise: a merely pending cancel request (F32) and
+   the disable count do not matter. *)
+Theorem C13_i_poisons_iff_exact :
+  forall isco s t g,
+  P.poisons isco true s t g = P.has_flag (P.gk g) && P.started_inside_now (P.T s t) g && negb (isco t && P.cunw (P.T s t)).
+Proof. exact PT.now_poison_iff_exact. Qed.
+Print Assumptions C13_i_poisons_iff_exact.
+
+(* A cancellation unwind never poisons: a guard dropped while the outermost unwinding in progress is a cancellation leaves
+   the flag alone - also inside a section that has the cancel disabled (repaired by bce9086 too). *)
 Theorem C13_i_cancellation_unwind_never_poisons :
-  forall isco ismutex s t g, P.Reach isco ismutex s ->
-  P.cause (P.T s t) = Some P.MCancel -> P.cancel_disabled (P.T s t) = false -> P.poisons isco s t g = false.
-Proof. exact PT.cancel_unwind_never_poisons. Qed.
+  forall isco ismutex s t g, P.Reach isco ismutex true s ->
+  P.cause (P.T s t) = Some P.MCancel -> P.poisons isco true s t g = false.
+Proof. exact PT.now_cancel_unwind_never_poisons. Qed.
 Print Assumptions C13_i_cancellation_unwind_never_poisons.
 
-(* PARTIAL.  The property says: a write guard dropped by a genuine panic poisons.  Proved only under the premise that the
-   task is a thread, or no cancel request is pending on the coroutine.  What is missing is refuted below. *)
+(* PARTIAL.  The property says: a write guard dropped by a genuine panic poisons.  Proved for threads, and for coroutines in
+   which the cancel panic has not been raised (the mark Cancel.unwinding is never cleared).  What is missing - a coroutine
+   whose own code has caught its cancel panic and that panics for real later - is refuted below. *)
 Theorem C13_i_genuine_panic_poisons_partial :
   forall isco s t g,
   P.has_flag (P.gk g) = true -> P.gpan g = false -> P.panicking (P.T s t) = true ->
-  (isco t = false \/ P.cancel_bit (P.T s t) = false) -> P.poisons isco s t g = true.
-Proof. exact PT.genuine_panic_poisons_partial. Qed.
+  (isco t = false \/ P.cunw (P.T s t) = false) -> P.poisons isco true s t g = true.
+Proof. exact PT.now_genuine_panic_poisons. Qed.
 Print Assumptions C13_i_genuine_panic_poisons_partial.
 
-(* PARTIAL.  The property as an equivalence: the drop poisons <-> (Mutex or write guard) and the panic started inside the
-   guard and the unwinding is not a cancellation.  Premises: (P1) no cancel request is pending on a coroutine that
-   unwinds by a genuine panic, (P2) the guard is not dropped inside a section with the cancel disabled while a
-   cancellation unwinds (no such section of the runtime drops a caller's guard). *)
+(* PARTIAL in the same way, in terms of what happened: a task that has not swallowed a cancel panic and has no cancellation
+   unwinding in progress poisons by every genuine unwinding - whether a cancel request is pending or not (finding F32). *)
+Theorem C13_i_genuine_panic_poisons_also_with_a_pending_cancel_request_partial :
+  forall isco ismutex s t g, P.Reach isco ismutex true s -> In g (P.held (P.T s t)) ->
+  P.has_flag (P.gk g) = true -> P.gpan g = false -> P.panicking (P.T s t) = true -> P.swal (P.T s t) = false ->
+  (forall ins, ~ In (P.CUnw P.MCancel ins) (P.ctl (P.T s t))) -> P.poisons isco true s t g = true.
+Proof. exact PT.now_pending_cancel_request_does_not_matter. Qed.
+Print Assumptions C13_i_genuine_panic_poisons_also_with_a_pending_cancel_request_partial.
+
+(* PARTIAL.  The property as an equivalence in terms of WHAT unwinds: the drop poisons <-> (Mutex or write guard) and the
+   panic started inside the guard and the unwinding is not a cancellation.  One premise: (P) no cancel panic has been raised
+   in a task that unwinds by a genuine panic (its own code has not caught one with catch_unwind). *)
 Theorem C13_i_poisons_iff_panic_started_inside_and_not_cancellation_partial :
-  forall isco ismutex s t g, P.Reach isco ismutex s -> In g (P.held (P.T s t)) ->
-  (P.genuine (P.cause (P.T s t)) = true -> isco t && P.cancel_bit (P.T s t) = false) ->
-  (P.cause (P.T s t) = Some P.MCancel -> P.cancel_disabled (P.T s t) = false) ->
-  P.poisons isco s t g = P.has_flag (P.gk g) && P.started_inside_now (P.T s t) g && P.genuine (P.cause (P.T s t)).
-Proof. exact PT.poison_iff_partial. Qed.
+  forall isco ismutex s t g, P.Reach isco ismutex true s ->
+  (P.genuine (P.cause (P.T s t)) = true -> P.cunw (P.T s t) = false) ->
+  P.poisons isco true s t g = P.has_flag (P.gk g) && P.started_inside_now (P.T s t) g && P.genuine (P.cause (P.T s t)).
+Proof. exact PT.now_poison_iff_partial. Qed.
 Print Assumptions C13_i_poisons_iff_panic_started_inside_and_not_cancellation_partial.
 
-(* REFUTED without P1 (potential defect of `may`, replayed on the real code: d_poison modes 5 and 9 with MAYV_STRICT=1,
-   s_panic with MAYV_D1=1): a coroutine holds a Mutex guard, cancel() is called on it, then it panics for real (payload
-   7).  The unwinding drops the guard and releases the lock, the task ends with OPan 7 - what join() reports - and the
-   lock is NOT poisoned: Flag::done decides "cancelled" from Cancel.state, not from what is unwinding. *)
-Theorem C13_i_poisons_iff_refuted :
-  exists s s' g, P.Reach (fun _ => true) (fun _ => true) s /\
+(* REFUTED without (P) on the code as it is now - the residue of fix bce9086, reported; replayed on the real code by
+   `MAYV_STRICT10=1 MAYV_MODE=10 d_poison`: a coroutine is cancelled, its own code catches the cancel panic (catch_unwind
+   around a cancellation point) and goes on, takes a Mutex and panics for real (payload 7) inside the guard: the task
+   ends with OPan 7, the lock is released and NOT poisoned. *)
+Theorem C13_i_swallowed_cancel_then_panic_refuted :
+  exists s, P.Reach (fun _ => true) (fun _ => true) true s /\
+    P.run (fun _ => true) (fun _ => true) true P.init PT.swallow_sched = Some s /\
+    P.fin (P.T s 0) = Some (P.OPan 7) /\ P.swal (P.T s 0) = true /\ P.failed (P.L s 0) = false /\ P.wheld (P.L s 0) = None.
+Proof. exact PT.swallowed_cancel_refuted. Qed.
+Print Assumptions C13_i_swallowed_cancel_then_panic_refuted.
+
+(* REFUTED on the code BEFORE fix bce9086 (variant fixd = false; finding F32, fixed): a coroutine holds a Mutex guard,
+   cancel() is called on it, then it panics for real (payload 7).  The unwinding drops the guard and releases the lock,
+   the task ends with OPan 7 - what join() reports - and the lock is NOT poisoned: Flag::done decided "cancelled" from
+   Cancel.state, not from what is unwinding.  (On the current code the same schedule poisons: example below.) *)
+Theorem C13_i_poisons_iff_prefix_refuted :
+  exists s s' g, P.Reach (fun _ => true) (fun _ => true) false s /\
     In g (P.held (P.T s 0)) /\ P.has_flag (P.gk g) = true /\ P.started_inside_now (P.T s 0) g = true /\
-    P.genuine (P.cause (P.T s 0)) = true /\
-    P.step (fun _ => true) (fun _ => true) s (P.UnwDrop 0 (P.gid g)) = Some s' /\ P.failed (P.L s' (P.glock g)) = false /\
-    (exists s'', P.run (fun _ => true) (fun _ => true) s' [P.UnwCatch 0] = Some s'' /\
+    P.genuine (P.cause (P.T s 0)) = true /\ P.cunw (P.T s 0) = false /\
+    P.step (fun _ => true) (fun _ => true) false s (P.UnwDrop 0 (P.gid g)) = Some s' /\ P.failed (P.L s' (P.glock g)) = false /\
+    (exists s'', P.run (fun _ => true) (fun _ => true) false s' [P.UnwCatch 0] = Some s'' /\
                  P.fin (P.T s'' 0) = Some (P.OPan 7) /\ P.failed (P.L s'' 0) = false /\ P.wheld (P.L s'' 0) = None).
-Proof. exact PT.poison_iff_refuted. Qed.
-Print Assumptions C13_i_poisons_iff_refuted.
+Proof. exact PT.poison_iff_prefix_refuted. Qed.
+Print Assumptions C13_i_poisons_iff_prefix_refuted.
 
 (* The flag is never cleared ... *)
 Theorem C13_i_poisoned_stays_poisoned :
-  forall isco ismutex s a s' l, P.step isco ismutex s a = Some s' -> P.failed (P.L s l) = true -> P.failed (P.L s' l) = true.
+  forall isco ismutex fixd s a s' l, P.step isco ismutex fixd s a = Some s' -> P.failed (P.L s l) = true -> P.failed (P.L s' l) = true.
 Proof. exact PT.poisoned_stays_poisoned. Qed.
 Print Assumptions C13_i_poisoned_stays_poisoned.
 
 (* ... a poisoned lock is taken under exactly the same condition as a clean one (the flag is not part of it) ... *)
 Theorem C13_i_lock_enabled_regardless_of_poison :
-  forall isco ismutex s t l k,
-  (exists s', P.step isco ismutex s (P.Lock t l k) = Some s') <->
+  forall isco ismutex fixd s t l k,
+  (exists s', P.step isco ismutex fixd s (P.Lock t l k) = Some s') <->
   P.alive (P.T s t) = true /\ P.kind_ok ismutex l k = true /\ P.available (P.L s l) k = true.
 Proof. exact PT.lock_enabled_regardless_of_poison. Qed.
 Print Assumptions C13_i_lock_enabled_regardless_of_poison.
 
 (* ... every lock() / write() / read() reports Err(Poisoned) exactly when the flag is set, and hands out a guard either way ... *)
 Theorem C13_i_lock_reports_poison_and_hands_out_a_guard :
-  forall isco ismutex s t l k s', P.step isco ismutex s (P.Lock t l k) = Some s' ->
+  forall isco ismutex fixd s t l k s', P.step isco ismutex fixd s (P.Lock t l k) = Some s' ->
   exists g, P.held (P.T s' t) = g :: P.held (P.T s t) /\ P.gid g = P.nextg s /\ P.glock g = l /\ P.gk g = k /\
             P.gerr g = P.failed (P.L s l) /\ P.gpan g = P.panicking (P.T s t) /\
             P.failed (P.L s' l) = P.failed (P.L s l) /\
@@ -175,8 +211,8 @@ Print Assumptions C13_i_lock_reports_poison_and_hands_out_a_guard.
 
 (* ... that works: it can be dropped at once and the drop releases the lock again. *)
 Theorem C13_i_guard_of_a_poisoned_lock_works :
-  forall isco ismutex s t l k s', P.step isco ismutex s (P.Lock t l k) = Some s' ->
-  exists s'', P.step isco ismutex s' (P.DropG t (P.nextg s)) = Some s'' /\
+  forall isco ismutex fixd s t l k s', P.step isco ismutex fixd s (P.Lock t l k) = Some s' ->
+  exists s'', P.step isco ismutex fixd s' (P.DropG t (P.nextg s)) = Some s'' /\
               (P.has_flag k = true -> P.wheld (P.L s'' l) = None) /\ (k = P.GR -> P.readers (P.L s'' l) = P.readers (P.L s l)) /\
               P.held (P.T s'' t) = P.del_g (P.nextg s) (P.held (P.T s' t)).
 Proof. exact PT.guard_of_poisoned_lock_works. Qed.
@@ -190,14 +226,14 @@ Print Assumptions C13_i_observers_report_the_flag.
 
 (* Exclusion does not depend on the flag: one owner of write access, no reader beside it. *)
 Theorem C13_i_write_guard_exclusive_also_when_poisoned :
-  forall isco ismutex s t t' g g', P.Reach isco ismutex s ->
+  forall isco ismutex fixd s t t' g g', P.Reach isco ismutex fixd s ->
   In g (P.held (P.T s t)) -> In g' (P.held (P.T s t')) -> P.has_flag (P.gk g) = true -> P.has_flag (P.gk g') = true ->
   P.glock g = P.glock g' -> t = t' /\ g = g'.
 Proof. exact PT.write_guard_exclusive. Qed.
 Print Assumptions C13_i_write_guard_exclusive_also_when_poisoned.
 
 Theorem C13_i_write_guard_excludes_readers_also_when_poisoned :
-  forall isco ismutex s t t' g g', P.Reach isco ismutex s ->
+  forall isco ismutex fixd s t t' g g', P.Reach isco ismutex fixd s ->
   In g (P.held (P.T s t)) -> In g' (P.held (P.T s t')) -> P.has_flag (P.gk g) = true -> P.gk g' = P.GR -> P.glock g = P.glock g' -> False.
 Proof. exact PT.write_guard_excludes_readers. Qed.
 Print Assumptions C13_i_write_guard_excludes_readers_also_when_poisoned.
@@ -231,9 +267,9 @@ Proof. exact TIE.rw_poisoning_drop_releases_like_the_normal_drop. Qed.
 Print Assumptions C13_i_rwlock_poisoning_drop_releases_like_the_normal_drop.
 
 Theorem C13_i_rwlock_write_drop_sets_exactly_the_decision :
-  forall gpan tpan isco cst s a, RW.apc (RW.A s a) = RW.HoldW ->
-  exists s', RW.run s (TIE.rw_write_drop gpan tpan isco cst a) = Some s' /\
-             RW.pois s' = RW.pois s || P.drop_poisons P.GW gpan tpan isco cst /\
+  forall fixd gpan tpan isco cst cunw s a, RW.apc (RW.A s a) = RW.HoldW ->
+  exists s', RW.run s (TIE.rw_write_drop fixd gpan tpan isco cst cunw a) = Some s' /\
+             RW.pois s' = RW.pois s || P.drop_poisons fixd P.GW gpan tpan isco cst cunw /\
              RW.apc (RW.A s' a) = RW.U0 /\ RW.afor (RW.A s' a) = Some a /\ RW.cnt s' = RW.cnt s /\ RW.holder s' = RW.holder s.
 Proof. exact TIE.rw_write_drop_sets_exactly_the_decision. Qed.
 Print Assumptions C13_i_rwlock_write_drop_sets_exactly_the_decision.
@@ -248,9 +284,9 @@ Print Assumptions C13_i_rwlock_read_guard_has_no_poisoning_drop.
    0 -> 1), every guard drop - explicit, or by an unwinding of any kind - = Step; Step (CS -> U0 -> Idle).  So every run
    of the guard life cycle with panics, cancellations, nested unwindings is a run of C05's model for that Mutex. *)
 Theorem C13_i_guard_life_cycle_is_simulated_by_the_mutex_model :
-  forall isco ismutex iscoM l, ismutex l = true ->
-  forall acts ps ms ps', P.Reach isco ismutex ps -> MX.Reach iscoM ms -> TIE.Rel l ps ms ->
-  P.run isco ismutex ps acts = Some ps' -> exists ms', MX.Reach iscoM ms' /\ TIE.Rel l ps' ms'.
+  forall isco ismutex fixd iscoM l, ismutex l = true ->
+  forall acts ps ms ps', P.Reach isco ismutex fixd ps -> MX.Reach iscoM ms -> TIE.Rel l ps ms ->
+  P.run isco ismutex fixd ps acts = Some ps' -> exists ms', MX.Reach iscoM ms' /\ TIE.Rel l ps' ms'.
 Proof. exact TIE.mutex_simulation_run. Qed.
 Print Assumptions C13_i_guard_life_cycle_is_simulated_by_the_mutex_model.
 
@@ -428,11 +464,24 @@ Print Assumptions C13_tls_cancel_suppressed_refuted.
 (* non-vacuity                                                                                               *)
 (* ======================================================================================================== *)
 
-(* the same run without the cancel request poisons (so C13_i_poisons_iff_refuted is about the cancel flag) *)
+(* a panic inside a guard poisons and releases *)
 Example C13_ex_panic_inside_guard_poisons_and_releases :
-  exists s, P.run (fun _ => true) (fun _ => true) P.init [P.Lock 0 0 P.GM; P.PanicStart 0 7; P.UnwDrop 0 0; P.UnwCatch 0] = Some s /\
+  exists s, P.run (fun _ => true) (fun _ => true) true P.init [P.Lock 0 0 P.GM; P.PanicStart 0 7; P.UnwDrop 0 0; P.UnwCatch 0] = Some s /\
             P.fin (P.T s 0) = Some (P.OPan 7) /\ P.failed (P.L s 0) = true /\ P.wheld (P.L s 0) = None.
 Proof. exact PT.same_run_without_cancel_poisons. Qed.
+
+(* the F32 schedule (Lock; CancelReq; PanicStart 7; UnwDrop; UnwCatch) on the code as it is now: poisoned *)
+Example C13_ex_pending_cancel_then_panic_poisons_now :
+  exists s, P.run (fun _ => true) (fun _ => true) true P.init PT.refute_sched = Some s /\
+            P.fin (P.T s 0) = Some (P.OPan 7) /\ P.failed (P.L s 0) = true /\ P.wheld (P.L s 0) = None.
+Proof. exact PT.pending_cancel_then_panic_poisons_now. Qed.
+
+(* a cancellation unwind that drops the guard inside a section with the cancel disabled: released, not poisoned *)
+Example C13_ex_cancel_unwind_does_not_poison_now :
+  exists s, P.run (fun _ => true) (fun _ => true) true P.init
+              [P.Lock 0 0 P.GM; P.CancelReq 0; P.CancelStart 0; P.Disable 0; P.UnwDrop 0 0; P.Enable 0; P.UnwCatch 0] = Some s /\
+            P.fin (P.T s 0) = Some P.OCan /\ P.failed (P.L s 0) = false /\ P.wheld (P.L s 0) = None.
+Proof. exact PT.cancel_unwind_does_not_poison_now. Qed.
 
 (* main spawns 1, the worker runs it, it panics with 7, the panic path runs; 2 is spawned, the SAME worker runs it,
    it returns 5; join(1) = Err(7), join(2) = Ok(5); the worker's stack is empty, both are dead, bodies ran once *)
